@@ -197,6 +197,17 @@ func urlReplay(s *Summary, raw json.RawMessage) {
 			func() {
 				defer func() { mpan = recover() }()
 				route, ps, _ = r.Match("GET", req.URL.Path)
+				if attachOnly {
+					// more distinct URLs than the cache holds in between: the entry of this URL is evicted and comes back
+					for k := 0; k < 6; k++ {
+						r.Match("GET", fmt.Sprintf("/zz/1/2/3/%d", k))
+						r.Match("GET", req.URL.Path)
+						r.Match("GET", fmt.Sprintf("/zz/1/2/%d/4", k))
+						r.Match("GET", fmt.Sprintf("/zz/1/%d/3/4", k))
+						r.Match("GET", fmt.Sprintf("/zz/%d/2/3/4", k))
+						r.Match("GET", fmt.Sprintf("/zz/%d/%d/3/4", k, k))
+					}
+				}
 				route, ps, _ = r.Match("GET", req.URL.Path) // (and once more: from the cache, where there is one)
 			}()
 			if mpan != nil {
